@@ -46,6 +46,23 @@ HANDLED_INSTANCES = {
 }
 
 
+WORK_PER_CHAR, WORK_BASE = 80, 600      # clean tree: at most ~30 calls per character on short texts, ~20 on long ones
+
+
+def OPKEY(n):
+    """wire name of the operator class a node applies when it is evaluated (the first link of a comparison chain)"""
+    cn = type(n).__name__
+    if cn == "BinOp":
+        return mito.BIN.get(type(n.op).__name__)
+    if cn == "UnaryOp" and type(n.op).__name__ != "Not":
+        return mito.UN.get(type(n.op).__name__)
+    if cn == "Compare" and n.ops:
+        return mito.CMP.get(type(n.ops[0]).__name__)
+    if cn == "BoolOp":
+        return mito.BOOL.get(type(n.op).__name__)
+    return None
+
+
 def must_visit(node):
     """nodes that are evaluated whatever the values are (as long as everything before them succeeds)."""
     out = [node]
@@ -86,7 +103,7 @@ class C01(Prop):
     thorough_deadline_s = 800
     all_branches = ["o:ok", "o:fail-ros", "o:fail-guard", "d:tool", "d:literal", "d:keyword", "d:compare", "d:math",
                     "latched", "too-long", "b:within", "b:small-pow", "b:exceeds", "forced", "dg:text:ok", "dg:text:fail",
-                    "cdg:returned"]
+                    "cdg:returned", "retable"]
     assumptions = [
         "CPython's parser, `str.lower/strip`, `json.loads` and `ast.literal_eval` are environment: their outcome on "
         "each input string is computed by CPython and handed to the model",
@@ -191,6 +208,105 @@ class C01(Prop):
                     lines.append(call(n))
         return {"lines": lines, "note": "registry"}
 
+    DROPPABLE_OPS = ["pow", "mod", "floordiv", "add", "mult", "usub", "uadd", "lt", "eq", "gte", "noteq", "and", "or"]
+    OP_TEXT = {"pow": "t0 ** t1", "mod": "t0 % t1", "floordiv": "t0 // t1", "add": "t0 + t1", "mult": "t0 * t1",
+               "usub": "-t0", "uadd": "+t0", "lt": "t0 < t1", "eq": "t0 == t1", "gte": "t0 >= t1", "noteq": "t0 != t1",
+               "and": "t0 and t1", "or": "t0 or t1"}
+
+    def _uses(self, rng, nm, tnames):
+        """texts that use the name `nm` in every kind of position"""
+        o = rng.choice([x for x in mito.TN if x != nm])
+        return [nm, f"{nm}({o})", f"{o} + {nm}", f"f0({nm})" if nm != "f0" else f"f1({nm})", f"{o}(k={nm})",
+                f"{o} < {nm}", f"[{o}, {nm}]", f"{nm} if {o} else {o}", f"{nm} or {o}", f"-{nm}",
+                f"{rng.choice(tnames)}({nm})", f"{rng.choice(tnames)}(k={nm}({o}))", f"{o}({nm}(), {o})"]
+
+    def _retable_case(self, rng, depth):
+        """the public allow-list tables of a LIVE engine are narrowed / replaced (instance attribute, class attribute,
+        in place) and names / operators that were dropped are used afterwards: judged by the tables in force NOW"""
+        tools = [("tool1", []), ("Calc", [])]
+        tnames = [n for n, _ in tools]
+        names = list(mito.TN)
+        lines = mito.header(rng, self.facts, names=names, tools=tools, silent=rng.random() < 0.8, ros=(1000, 1))
+        if rng.random() < 0.3:      # the same tables once more, through one of the three routes: changes nothing
+            lines.append(mito.retable_line(rng.choice(["inst", "cls", "edit"]), self.facts, names))
+        drop_ops: list = []
+        for _round in range(rng.choice([1, 2, 2, 3])):
+            for _ in range(rng.choice([1, 2, 3])):
+                lines.append(mito.met_line(rng.choice(["math", "auto", "logic"]),
+                                           mito.gen_tracer(rng, depth, "truth", False, True)))
+            k = rng.random()
+            if k < 0.75 and len(names) > 2:
+                dropped = rng.sample(names, rng.choice([1, 1, 2, 3]))
+                names = [n for n in names if n not in dropped]
+            else:
+                dropped = []
+                names = names + [n for n in rng.sample(mito.TN + ["t9"], 2) if n not in names]    # re-added / new
+            if rng.random() < 0.4:
+                drop_ops = rng.sample(self.DROPPABLE_OPS, rng.choice([1, 2, 4]))
+            elif rng.random() < 0.3:
+                drop_ops = []
+            lines.append(mito.retable_line(rng.choice(["inst", "cls", "edit"]), self.facts, names, drop_ops))
+            texts = []
+            for nm in dropped:
+                texts += rng.sample(self._uses(rng, nm, tnames), 4)
+            for o in drop_ops[:2]:
+                texts.append(self.OP_TEXT[o])
+                texts.append(f"f0({self.OP_TEXT[o]})")
+            texts += [mito.gen_tracer(rng, depth, "any", False) for _ in range(2)]
+            if names:
+                texts.append(f"{rng.choice(names)} if {rng.choice(names)} else {rng.choice(names)}")
+            rng.shuffle(texts)
+            for src in texts:
+                r = rng.random()
+                if r < 0.12:
+                    lines.append(mito.dg_line(src))
+                elif src.startswith(tuple(t + "(" for t in tnames)):
+                    lines.append(mito.met_line(rng.choice(["auto", "tool"]), src))
+                else:
+                    lines.append(mito.met_line(rng.choice(["math", "math", "auto", "logic"]), src))
+        return {"lines": lines, "note": "retable"}
+
+    HOWS = ["sub", "inst", "cls", "edit", "agent"]
+
+    def _narrow_case(self, rng):
+        """concrete world: a live engine (also the one a BioAgent built for itself) loses names of its default table"""
+        lines = mito.header(rng, self.facts, tools=[("echo", [])], silent=True, ros=(1000, 1))
+        for _ in range(rng.choice([4, 6, 8])):
+            drop = rng.sample(self.fn_names + self.const_names, rng.choice([1, 2, 4]))
+            nm = rng.choice(drop)
+            callable_ = nm in self.fn_names
+            o = rng.choice(["1", "2.5", "pi", "abs(-3)", "[1, 2]"])
+            src = rng.choice([f"{nm}({o})", f"{nm}", f"1 + {nm}({o})", f"abs({nm}({o}))", f"max([1, 2], key={nm})",
+                              f"echo({nm}({o}))", f"echo(x={nm})", f"{nm} > 1", f"0 or {nm}", f"[{nm}]",
+                              f"1 if {nm} else 2", f"sqrt(16) + abs(-1)", f"echo(floor(2.5))"]
+                             if callable_ else
+                             [f"{nm}", f"{nm} * 2", f"abs({nm})", f"echo({nm})", f"echo(x={nm})", f"{nm} > 1",
+                              f"[{nm}, 1]", f"round({nm}, ndigits=2)", "1 + 1"])
+            if not mito.cheap(src):
+                continue
+            how = rng.choice(self.HOWS)
+            forced = rng.choice(["auto", "math", "logic"]) if not src.startswith("echo(") else rng.choice(["auto", "tool"])
+            lines.append(mito.cmetn_line(how, drop, forced, src))
+        return {"lines": lines, "note": "narrowed allow-list (concrete)"}
+
+    def _nest_case(self, rng, tier):
+        """deep nests (comparison chains inside chains inside and/or inside calls ...): work linear in the text"""
+        lines = mito.header(rng, self.facts, tools=[("tool1", [])], silent=True, ros=(1000, 1))
+        for _ in range(4):
+            d = rng.choice([6, 9, 12, 14] if tier == "quick" else [8, 12, 16, 18])
+            src = mito.gen_nest(rng, d, True, rng.choice(mito.NEST_CONCRETE) if rng.random() < 0.3 else None)
+            lines.append(mito.cmet_line(rng.choice(["auto", "math", "logic"]), src))
+            if rng.random() < 0.3:
+                lines.append(mito.cmet_line("tool", f"tool1({src}, k={src})"))
+        for _ in range(3):
+            src = mito.gen_nest(rng, rng.choice([3, 5, 8]), False)
+            lines.append(mito.met_line(rng.choice(["math", "auto", "logic"]), src))
+            if rng.random() < 0.3:
+                lines.append(mito.met_line("tool", f"tool1({src})"))
+            if rng.random() < 0.2:
+                lines.append(mito.dg_line(src))
+        return {"lines": lines, "note": "nest"}
+
     def _history_case(self, rng, depth):
         """the same text through every pathway in several orders, twice, on the same and on fresh engines: results
         must not depend on what was evaluated before"""
@@ -225,6 +341,15 @@ class C01(Prop):
                 continue
             if i % 6 == 5:
                 yield self._registry_case(rng, 2)
+                continue
+            if i % 12 in (1, 7):
+                yield self._retable_case(rng, rng.choice([1, 2]))
+                continue
+            if i % 12 == 4:
+                yield self._narrow_case(rng)
+                continue
+            if i % 12 == 10:
+                yield self._nest_case(rng, tier)
                 continue
             if i % 30 == 8:
                 lines = mito.header(rng, self.facts, silent=True)
@@ -336,6 +461,71 @@ class C01(Prop):
                 lines.append(mito.cmet_line("math", sh.format(nm)))
         spaces.append({"name": f"{len(pool)} names outside the allow-list (dunders, unlisted members of math / builtins / "
                                f"operator) x {len(shapes)} call shapes", "cases": cases})
+        # nests: every construct inside itself and inside every other one, deep
+        cases, lines = [], None
+        D1, D2 = (12, 4) if tier == "quick" else (16, 6)
+        texts = []
+        for a in mito.NEST_CONCRETE:
+            texts.append(mito.gen_nest(rng, D1, True, a))
+        for ia, a in enumerate(mito.NEST_CONCRETE):
+            for ib, b in enumerate(mito.NEST_CONCRETE):
+                if a != b and (tier == "thorough" or (ia + ib) % 3 == 0):
+                    e = "1"
+                    for _ in range(D2):
+                        e = a.format(b.format(e))
+                    texts.append(e)
+        for j, src in enumerate(texts):
+            if lines is None or len(lines) > 40:
+                lines = mito.header(rng, facts, tools=[("tool1", [])], silent=True, ros=(1000, 1))
+                cases.append({"lines": lines, "note": "nest"})
+            lines.append(mito.cmet_line(["math", "logic", "auto"][j % 3], src))
+            if j % 7 == 0:
+                lines.append(mito.cmet_line("tool", f"tool1({src})"))
+        for a in mito.NEST_TRACER:
+            if lines is None or len(lines) > 40:
+                lines = mito.header(rng, facts, tools=[("tool1", [])], silent=True, ros=(1000, 1))
+                cases.append({"lines": lines, "note": "nest"})
+            lines.append(mito.met_line("math", mito.gen_nest(rng, 5, False, a)))
+            lines.append(mito.met_line("auto", mito.gen_nest(rng, 3, False, a)))
+        spaces.append({"name": f"nests: {len(mito.NEST_CONCRETE)} constructs in themselves (depth {D1}) and in each other "
+                               f"(depth {2 * D2}), {len(mito.NEST_TRACER)} tracer nests: work linear in the text",
+                       "cases": cases})
+        # the allow-list of a live engine narrowed (3 routes) x every kind of position of a dropped name / operator
+        cases = []
+        for how in ("inst", "cls", "edit"):
+            for nm in ("t2", "f0"):
+                lines = mito.header(rng, facts, tools=[("tool1", []), ("Calc", [])], silent=True, ros=(1000, 1))
+                lines.append(mito.met_line("math", f"{nm}(t0) + t1"))
+                keep = [n for n in mito.TN if n != nm]
+                lines.append(mito.retable_line(how, facts, keep, ["pow", "gte"]))
+                for src in self._uses(rng, nm, ["tool1", "Calc"]) + ["t0 ** t1", "t0 >= t1", "t0 + t1", "t0 < t1",
+                                                                       "t1 if t0 else t0 ** t1"]:
+                    forced = "tool" if src.startswith(("tool1(", "Calc(")) else "math"
+                    lines.append(mito.met_line(forced, src))
+                    lines.append(mito.met_line("auto", src))
+                lines.append(mito.dg_line(f"{nm}(t0)"))
+                lines.append(mito.retable_line(how, facts, mito.TN))          # listed again
+                lines.append(mito.met_line("math", f"{nm}(t0) + t1 ** t0"))
+                cases.append({"lines": lines, "note": "retable"})
+        # default-table names on an engine whose instance table was replaced after construction
+        lines = mito.header(rng, facts, tools=[("tool1", [])], silent=True, ros=(1000, 1))
+        for nm in mito.DEFAULT_NAMES:
+            for src in (nm, f"{nm}(t0)", f"t0 + {nm}", f"tool1({nm})", f"f0(k={nm}(t1))"):
+                lines.append(mito.met_line("tool" if src.startswith("tool1(") else "math", src))
+        cases.append({"lines": lines, "note": "default names in the tracer world"})
+        PROBES = ["{n}(5)", "{n}(5) > 1", "abs({n}(3))", "max([1, 2], key={n})", "{n}", "echo({n}(4))", "echo(x={n})",
+                  "1 if {n} else 2", "[{n}]", "0 or {n}", "sqrt(16) + abs(-1)", "echo(floor(2.5))"]
+        for how in self.HOWS:
+            lines = mito.header(rng, facts, tools=[("echo", [])], silent=True, ros=(1000, 1))
+            for drop in (["factorial", "pow", "exp", "inf"], ["abs"], ["pi", "e"]):
+                for pr in PROBES:
+                    src = pr.format(n=drop[0])
+                    forced = ["auto", "tool"] if src.startswith("echo(") else ["auto", "math"]
+                    for fz in forced:
+                        lines.append(mito.cmetn_line(how, drop, fz, src))
+            cases.append({"lines": lines, "note": "narrowed allow-list (concrete)"})
+        spaces.append({"name": "allow-list tables of a live engine narrowed (instance / class / in place / BioAgent's own "
+                               "engine / subclass control) x every position of a dropped name or operator", "cases": cases})
         # raw strings
         cases = []
         for (s, safe) in mito.raw_strings(self.max_len):
@@ -362,11 +552,11 @@ class C01(Prop):
         if self._fresh and "history" in case.get("note", ""):      # see c02.py: shrink candidates in a fresh child
             w = mito.Worker(str(REPO))
             try:
-                o, x = w.run([lines[i] for i in idx], profile=True)
+                o, x = w.run([lines[i] for i in idx], profile=True, dbg=case.get("dbg", False), work=True)
             finally:
                 w.close()
         else:
-            o, x = self.worker.run([lines[i] for i in idx], profile=True)
+            o, x = self.worker.run([lines[i] for i in idx], profile=True, dbg=case.get("dbg", False), work=True)
         for i, a, b in zip(idx, o, x):
             obs[i], extra[i] = a, b
         for i, l in enumerate(lines):
@@ -379,11 +569,15 @@ class C01(Prop):
     # --- oracle: the property text on what the real code did ---------------------------------------------------
     def oracle(self, case, obs, extra):
         out = []
-        tools, allowed, names, vers = {}, None, set(), {}
+        tools, allowed, names, vers, opkeys = {}, None, set(), {}, None
+        keys = lambda f: set(x.split("=")[0] for x in f.split(",") if x != "-")
         for i, (line, o, x) in enumerate(zip(case["lines"], obs, extra)):
             t = line.split(" ")
-            if t[0] == "tables":
-                names = set(mito.unhexs(h) for h in t[5].split(",")) if t[5] != "-" else set()
+            if t[0] in ("tables", "retable"):
+                # the allow-list in force from here on (a `retable` line changes it on the live engine)
+                f = t[1:] if t[0] == "tables" else t[2:]
+                names = set(mito.unhexs(h) for h in f[4].split(",")) if f[4] != "-" else set()
+                opkeys = keys(f[0]) | keys(f[1]) | keys(f[2]) | keys(f[3])
             elif t[0] == "cfg":
                 tools, vers, allowed = {}, {}, (None if t[9] == "none" else set([] if t[9] == "-" else t[9].split(",")))
             elif t[0] == "tool":
@@ -406,8 +600,9 @@ class C01(Prop):
                 if o != "returned":
                     out.append(Violation("returns_within_bound", "metabolize(timeout_seconds=0.5) returns within 6 s "
                                          "under a 512 MiB address-space limit", o, i))
-            elif t[0] in ("met", "cmet"):
-                src = mito.unhexs(t[4] if t[0] == "met" else t[3])
+            elif t[0] in ("met", "cmet", "cmetn"):
+                src = mito.unhexs(t[4] if t[0] == "met" else t[3] if t[0] == "cmet" else t[5])
+                dropped = set(mito.unhexs(h) for h in t[2].split(",") if h != "-") if t[0] == "cmetn" else set()
                 if o.startswith(("raised", "crash", "worker-error")):
                     out.append(Violation("never_raises", "a MetabolicResult", o + " " + str((x or {}).get("raised")), i))
                     continue
@@ -429,6 +624,14 @@ class C01(Prop):
                             and "/harness/vf/mito.py:" not in what:
                         out.append(Violation("only_allow_listed_callables", "no python-level call out of the walker",
                                              c, i))
+                # "returns within a bound ... rather than hanging": the work done for one text (every function the engine
+                # calls, Python or C level, counted by the profile hook) is at most linear in the length of the text
+                if prof.get("work") is not None and prof["work"] > WORK_PER_CHAR * len(src) + WORK_BASE:
+                    out.append(Violation("returns_within_bound", f"work linear in the text: at most {WORK_PER_CHAR} * "
+                                         f"{len(src)} + {WORK_BASE} calls", f"{prof['work']} calls", i))
+                if str(x.get("agent", "")).startswith("raised"):
+                    out.append(Violation("never_raises", "BioAgent.express('calculate …') returns an ActionProtein",
+                                         x["agent"], i))
                 success = x.get("success")
                 pathway = o.split(" ")[1] if t[0] == "met" else o
                 # forbidden constructs are never evaluated successfully
@@ -450,11 +653,25 @@ class C01(Prop):
                                     and body.func.id in tools):
                                 out.append(Violation("only_registered_tools", "callee is the name of a registered tool",
                                                      src[:60], i))
-                        defined = (names if t[0] == "met" else self.allow_names) | \
+                        defined = (names if t[0] == "met" else self.allow_names - dropped) | \
                                   ({"true", "false"} if pathway == "logic" else set())
+                        if x.get("agent_ok_text") is not None and pathway == "math":
+                            # the agent's own engine was narrowed too: "calculate <text>" must not use a dropped name
+                            for n in must_visit(body):
+                                nm = n.id if isinstance(n, ast.Name) else None
+                                if nm is not None and nm not in defined:
+                                    out.append(Violation("no_lookup_outside_allow_list", f"BioAgent reports a failure "
+                                                         f"({nm!r} was removed from its engine's SAFE_FUNCTIONS)",
+                                                         "Calculated: " + "".join(map(chr, x["agent_ok_text"]))[:60], i))
+                                    break
                         for r in roots:
                             for n in must_visit(r):
                                 cn = type(n).__name__
+                                opk = OPKEY(n)
+                                if t[0] == "met" and opkeys is not None and opk is not None and opk not in opkeys:
+                                    out.append(Violation("only_allow_listed_operators", f"failure (operator class "
+                                                         f"{opk!r} is not in the engine's tables now)", o[:80], i))
+                                    break
                                 nm = n.id if cn == "Name" else (n.func.id if cn == "Call" and isinstance(n.func, ast.Name)
                                                                 else None)
                                 if nm is not None and nm not in defined:
@@ -495,7 +712,7 @@ class C01(Prop):
         return None
 
     def nontrivial(self, case, obs):
-        return any(o.startswith("ok:") or o.startswith("fail") or o in ("math", "logic") for o in obs)
+        return any(o.startswith("ok:") or o.startswith("fail") or o in ("math", "logic", "tool") for o in obs)
 
 
 PROP = C01()
